@@ -28,20 +28,25 @@ func cmdProcCore(args []string) int {
 	debug := fs.Bool("debug", false, "debug")
 	free := fs.Int("free", 0, "free-running mode: number of executions of the scenario (no controller)")
 	hammer := fs.Int("hammer_ms", 0, "high-volume free-running mode: duration in ms")
+	order := fs.Int("order", 0, "order histories (process-API senders, parked receiver): number of histories")
 	hactors := fs.Int("actors", 8, "hammer: actors")
 	hsenders := fs.Int("senders", 3, "hammer: sender goroutines per actor")
 	hlimit := fs.Int64("limit", 0, "hammer: mailbox size")
 	fs.Parse(args)
 	var pf *proccore.PlanFile
 	var err error
-	if *hammer == 0 {
+	if *hammer == 0 && *order == 0 {
 		pf, err = proccore.LoadPlans(*plans)
 		if err != nil {
 			fmt.Fprintln(os.Stderr, "load:", err)
 			return 2
 		}
 	}
-	n, err := proccore.StartNode(*name)
+	start := proccore.StartNode
+	if *order > 0 {
+		start = proccore.StartNodeLogging
+	}
+	n, err := start(*name)
 	if err != nil {
 		fmt.Fprintln(os.Stderr, "node:", err)
 		return 2
@@ -58,6 +63,15 @@ func cmdProcCore(args []string) int {
 	ctl := vsched.New(vsched.Config{})
 	ctl.Debug = *debug
 	r := &proccore.Runner{Node: n, Core: n.(gen.Core), Ctl: ctl, Out: bw, Seed: *seed}
+	if *order > 0 {
+		if err := r.RunOrder(*order, *seed); err != nil {
+			fmt.Fprintln(os.Stderr, "order:", err)
+			return 2
+		}
+		b, _ := json.Marshal(map[string]any{"plans": r.Plans, "steps": r.Steps, "stalls": 0})
+		fmt.Println(string(b))
+		return 0
+	}
 	if *hammer > 0 {
 		if err := r.Hammer(*hactors, *hsenders, time.Duration(*hammer)*time.Millisecond, *hlimit); err != nil {
 			fmt.Fprintln(os.Stderr, "hammer:", err)
